@@ -183,6 +183,46 @@ func isoFamilyCases(thorough bool, structural bool, visit func(c isoCase)) {
 			}
 		}})
 	}
+	// exact-fit family: name length L x entry count n such that the records of a directory end exactly on a
+	// sector boundary in the primary or the Joliet hierarchy (and the neighbouring counts)
+	maxL := 60
+	if thorough {
+		maxL = 110
+	}
+	for L := 1; L <= maxL; L++ {
+		rsJ := 34 + 2*L
+		rsP := 33 + L + (L+1)%2
+		cand := map[int]bool{}
+		for _, rs := range []int{rsJ, rsP} {
+			// first sector holds '.' and '..' (68 bytes); later sectors start empty
+			pos, n := 68, 0
+			for n < 130 {
+				if pos+rs > 2048 {
+					pos = 0
+				}
+				pos += rs
+				n++
+				if pos == 2048 {
+					cand[n-1], cand[n], cand[n+1] = true, true, true
+				}
+			}
+		}
+		for n := range cand {
+			if n < 1 {
+				continue
+			}
+			L, n := L, n
+			visit(isoCase{desc: sprintf("exact-fit name-length=%d entries=%d", L, n), family: "exactfit", build: func(dir string) {
+				must(os.MkdirAll(filepath.Join(dir, "sub"), 0o755))
+				for i := 0; i < n; i++ {
+					mkFileAbs(filepath.Join(dir, "sub", sprintf("%0*d", L, i)), int64(i%3)*700+1, byte(i), baseTime)
+				}
+				mkFileAbs(filepath.Join(dir, "top.txt"), 3000, 9, baseTime)
+				must(os.MkdirAll(filepath.Join(dir, "zlast", "deep"), 0o755))
+				mkFileAbs(filepath.Join(dir, "zlast", "deep", "f.bin"), 2049, 8, baseTime)
+			}})
+		}
+	}
 	for d := 0; d <= 8; d++ {
 		d := d
 		visit(isoCase{desc: sprintf("chain-depth=%d", d), family: "depth", build: func(dir string) {
